@@ -1102,6 +1102,18 @@ jpeg_gen_optimal_table(j_compress_ptr cinfo, JHUFF_TBL *htbl, long freq[])
 
   /* Set sent_table FALSE so updated table will be written to JPEG file. */
   htbl->sent_table = FALSE;
+
+#ifdef LJT_VERIF
+  /* verification hook: expose codesize[] (the Huffman code length of every
+     non-zero symbol before the length-limiting step; the last entry belongs to
+     the pseudo-symbol 256) */
+  {
+    extern void (*ljt_verif_codesize_hook) (const int *codesize, int n);
+
+    if (ljt_verif_codesize_hook)
+      (*ljt_verif_codesize_hook) (codesize, num_nz_symbols);
+  }
+#endif
 }
 
 
